@@ -150,7 +150,10 @@ func (s *Sim) queryEventDelivered(rec *QEventRec) {
 	}
 	for _, nq := range sortedKeys(res.V) {
 		v := res.V[nq]
-		if v.Deleted {
+		if v.Deleted || v.deleteAnnounced() {
+			// (a not-found answer to a re-fetch or query request makes the gateway
+			// drop the variant although the service still has it; until it is
+			// loaded again there is nothing to send a query request for)
 			rec.Maybe[nq] = true
 			continue
 		}
